@@ -185,10 +185,23 @@ def write_png(w, h, ct, depth, il, data, plte=None, trns=None, pre=(), mid=(), p
         out += chunk("tRNS", trns)
     for n, d in mid:
         out += chunk(n, d)
+    if idat_split < 0:
+        # legal oddities: zero-length IDAT chunks (first, in the middle, last) around the data
+        idat_split = -idat_split
+        empties = idat_split % 8        # bit 0: empty first, bit 1: empty middle, bit 2: empty last
+        idat_split = max(1, idat_split // 8)
+    else:
+        empties = 0
     n = max(1, idat_split)
     step = cdiv(len(comp), n)
-    for i in range(0, len(comp), step):
+    if empties & 1:
+        out += chunk("IDAT", b"")
+    for j, i in enumerate(range(0, len(comp), step)):
         out += chunk("IDAT", comp[i:i + step])
+        if j == 0 and empties & 2:
+            out += chunk("IDAT", b"")
+    if empties & 4:
+        out += chunk("IDAT", b"")
     for n_, d in post:
         out += chunk(n_, d)
     out += chunk("IEND", b"")
